@@ -114,7 +114,7 @@ fn initial_residuals<N, F, const V: usize>(
     mut f: F,
     jac: &mut DMatrix<N>,
     jac_transpose: &mut DMatrix<N>,
-    mut params: SVector<N, V>,
+    params: &mut SVector<N, V>,
 ) -> Result<(N::RealField, DVector<N>), String>
 where
     N: ComplexField + Copy + FromPrimitive,
@@ -150,15 +150,15 @@ where
         if !solved {
             return Err("curve_fit: unable to solve linear equation".to_owned());
         }
-        params += &b;
-        evaluation = DVector::from_iterator(xs.len(), xs.iter().map(|&x| f(x, &params)));
+        *params += &b;
+        evaluation = DVector::from_iterator(xs.len(), xs.iter().map(|&x| f(x, params)));
         let diff = ys - &evaluation;
         sum_sq = diff
             .iter()
             .map(|&r| r.modulus_squared())
             .fold(N::RealField::zero(), |acc, r| acc + r);
         j += 1;
-        jac_finite_differences(&mut f, xs, &mut params, jac, h);
+        jac_finite_differences(&mut f, xs, params, jac, h);
         *jac_transpose = jac.transpose();
     }
     if j != 1000 {
@@ -177,7 +177,7 @@ fn initial_residuals_exact<N, F, G, const V: usize>(
     mut jacobian: G,
     jac: &mut DMatrix<N>,
     jac_transpose: &mut DMatrix<N>,
-    mut params: SVector<N, V>,
+    params: &mut SVector<N, V>,
 ) -> Result<(N::RealField, DVector<N>), String>
 where
     N: ComplexField + Copy + FromPrimitive,
@@ -223,15 +223,15 @@ where
                 }
             }
         }
-        params += &b;
-        evaluation = DVector::from_iterator(xs.len(), xs.iter().map(|&x| f(x, &params)));
+        *params += &b;
+        evaluation = DVector::from_iterator(xs.len(), xs.iter().map(|&x| f(x, params)));
         let diff = ys - &evaluation;
         sum_sq = diff
             .iter()
             .map(|&r| r.modulus_squared())
             .fold(N::RealField::zero(), |acc, r| acc + r);
         j += 1;
-        jac_analytic(&mut jacobian, xs, &mut params, jac);
+        jac_analytic(&mut jacobian, xs, params, jac);
         *jac_transpose = jac.transpose();
     }
     if j != 1000 {
@@ -302,7 +302,7 @@ where
         &mut f,
         &mut jac,
         &mut jac_transpose,
-        params,
+        &mut params,
     )?;
 
     let mut last_sum_sq = sum_sq;
@@ -436,7 +436,7 @@ where
         &mut jacobian,
         &mut jac,
         &mut jac_transpose,
-        params,
+        &mut params,
     )?;
 
     let mut last_sum_sq = sum_sq;
